@@ -153,6 +153,8 @@ def rejection(enc, config, tl, obs):
 
 
 def work(item):
+    from .. import ops as O
+    O.AUTO_TABLE = True   # the Reed-Muller nearest-codeword inverse (argmin over a codebook) is far cheaper on finite tables
     tl = Tally()
     s = item["spec"]
     config = cfg(s)
